@@ -210,6 +210,11 @@ class BGP(protocol.Protocol):
         if length < bgp_cons.HDR_LEN or length > bgp_cons.MAX_LEN:
             self.fsm.header_error(bgp_cons.ERR_MSG_HDR_BAD_MSG_LEN, struct.pack('!H', length))
             return False
+        if (msg_type == bgp_cons.MSG_OPEN and length < 29) or (msg_type == bgp_cons.MSG_UPDATE and length < 23) or \
+                (msg_type == bgp_cons.MSG_NOTIFICATION and length < 21):
+            # shorter than the minimum length of that message type (RFC 4271 6.1)
+            self.fsm.header_error(bgp_cons.ERR_MSG_HDR_BAD_MSG_LEN, struct.pack('!H', length))
+            return False
             # Check whether the entire message is already available
         if len(buf) < length:
             return False
